@@ -204,3 +204,31 @@ Proof.
   destruct (coerce rt r); try discriminate. intros E. inv E.
   destruct H as [_ [F1 F2]]. split; auto.
 Qed.
+
+(** * What a successful access means (the machine checks every load and store) *)
+
+Lemma load_checked st b o v : load st b o = Ok v ->
+  exists blk, PM.find b (heap st) = Some blk /\ b_live blk = true /\ 0 <= o < b_len blk
+              /\ PM.find (key o) (b_cells blk) = Some v.
+Proof.
+  unfold load. destruct (PM.find b (heap st)) as [blk|]; try discriminate.
+  destruct (negb (b_live blk)) eqn:L; try discriminate.
+  destruct ((o <? 0) || (b_len blk <=? o)) eqn:B; try discriminate.
+  destruct (PM.find (key o) (b_cells blk)) as [c|] eqn:C; try discriminate.
+  destruct (typed _ c); try discriminate. intros H; inv H.
+  exists blk. apply negb_false_iff in L. apply orb_false_iff in B. destruct B as [B1 B2].
+  apply Z.ltb_ge in B1. apply Z.leb_gt in B2. repeat split; auto.
+Qed.
+
+Lemma store_checked st b o v st' : store st b o v = Ok st' ->
+  exists blk, PM.find b (heap st) = Some blk /\ b_live blk = true /\ b_input blk = false
+              /\ 0 <= o < b_len blk.
+Proof.
+  unfold store, bind. destruct (PM.find b (heap st)) as [blk|]; try discriminate.
+  destruct (negb (b_live blk)) eqn:L; try discriminate.
+  destruct (b_input blk) eqn:I; try discriminate.
+  destruct ((o <? 0) || (b_len blk <=? o)) eqn:B; try discriminate.
+  destruct (coerce _ v); try discriminate. intros H; inv H.
+  exists blk. apply negb_false_iff in L. apply orb_false_iff in B. destruct B as [B1 B2].
+  apply Z.ltb_ge in B1. apply Z.leb_gt in B2. repeat split; auto.
+Qed.
